@@ -5,6 +5,20 @@ HERE = os.path.dirname(os.path.dirname(os.path.abspath(__file__)))
 props = [json.loads(l)["id"] for l in open(os.path.join(HERE, "properties.jsonl"))]
 
 CHECKS = {
+ "C20": dict(
+    category="model_checking",
+    text="Calendar.tla (leap years, day-of-week, date / range / week-n-day patterns with all wildcards) and Schedule.tla (Value from the "
+         "12.24 rule, NextChange, a timer machine) -- TLC enumerates dates x 228 patterns (quick 8 years, thorough every date 1900..2154) "
+         "and a family of 28 k small schedule configurations (thorough 3.7 M states) checking ShowsScheduledValue, NoChangeBeforeNext, "
+         "KeepsRunning, NoLivelock; named deviations must violate them. Binding: the expected match vectors are compared with the real "
+         "matchers (666 k calls quick, 21 M thorough), TLC-chosen configurations are evaluated with the real LocalScheduleInterpreter.eval "
+         "on the 15-minute grid and run timer-driven in virtual time; random schedules at the property's sizes are scanned minute by minute "
+         "and run over multiple days across effective-period edges, recorded, and judged by TLC (Trace_Schedule.tla).",
+    design_ref="DESIGN.md 5 (C20)",
+    note="Trusted: TLC, Calendar.tla (DayOfWeek/DaysInMonth cross-checked against datetime for every date), the renderer to real schedule "
+         "objects. TZ=UTC. EvalCorrect is not applied on days where two matching exceptions share a priority (the property fixes no "
+         "tie-break); the oracle-free NoChangeBeforeNext is. Known finding F15c.",
+    technique="TLA+ calendar/schedule spec evaluated by TLC (date x pattern grid, configuration family, timer machine); replay into the real matchers/interpreter; TLC validation of recorded evaluations and timer runs"),
  "C04": dict(
     category="model_checking",
     text="TLC checks on TSM.tla (one action per ClientSSM/ServerSSM handler, FIFO medium with counted drop/dup/delay faults, "
@@ -99,6 +113,20 @@ CHECKS = {
          "route_aware, interface names excluded. Lenient inputs that still build the number a reader would take (trailing newline, "
          "non-ASCII digits, octal-looking octets) are recorded, not judged.",
     technique="TLA+ denotation spec (Addr.tla) evaluated by TLC over the notation grid; per-case replay into the real parser/printer; TLC validation of recorded parses and of the equality/hash matrices"),
+ "C12": dict(
+    category="model_checking",
+    text="TSMcaps.tla states the capability negotiation as a function Decide(settings, knowledge, lengths) and the C12 clauses (ApduFits, "
+         "SegmentedOnlyIfAllowed, AbortInsteadOfOversize, WindowRange) on an observation record; TLC evaluates the clauses on Decide's own "
+         "output over the cross product of max-APDU sizes x max-segments x 4x4 segmentation support x windows {1,2,127} x I-Am known/unknown "
+         "x payload lengths around every boundary (quick 230 k, thorough 4.1 M points), and shows that header-less sizing violates ApduFits. "
+         "Binding: one real transaction per sampled point (every size pair x 4x4 support x known/unknown, boundary sweeps of every length "
+         "around the unsegmented limit, max-segments limits +-1) on real ClientSSM/ServerSSM with the client's DeviceInfoCache filled by the "
+         "library's iam_device_info; frame lengths and header fields measured on the wire; the records are judged by TLC (Trace_TSMcaps.tla): "
+         "the clauses on every record, plus field-by-field agreement with Decide.",
+    design_ref="DESIGN.md 5 (C12), Appendix A.2",
+    note="Trusted: TLC; tsmrig's independent APDU header reader; fault-free medium. An I-Am carries no max-segments, so the request-side "
+         "segment-count limit is not exercisable through the public path. Function-evaluation use of TLC for the decision function.",
+    technique="TLA+ decision-function spec (TSMcaps.tla) evaluated by TLC over the capability cross product; real transactions per point with wire measurements validated by TLC"),
  "C14": dict(
     category="model_checking",
     text="TLC checks every C14 clause (fire order, FIFO among equals, never early, once per install, no fire after suspend, "
